@@ -46,6 +46,15 @@ func c01Norm(name string) string { return strings.TrimPrefix(name, "/") }
 
 // c01SameView compares what the API shows for one path in the live and in the rebuilt index.
 func c01SameView(l, r config.MetadataConfig, path string) bool {
+	// the same path looked up as a symbolic link (Lstat / Readlink)
+	ll, ell := inventory.Stat(l, path, true, nil)
+	lr, elr := inventory.Stat(r, path, true, nil)
+	if (ell == nil) != (elr == nil) {
+		return false
+	}
+	if ell == nil && (c01Norm(ll.Name) != c01Norm(lr.Name) || c01Norm(ll.Linkname) != c01Norm(lr.Linkname) || ll.Typeflag != lr.Typeflag) {
+		return false
+	}
 	hl, el := inventory.Stat(l, path, false, nil)
 	hr, er := inventory.Stat(r, path, false, nil)
 	if (el == nil) != (er == nil) {
@@ -96,7 +105,7 @@ func Harness_C01_rebuild_equals_live() {
 	comp := persisters.VerifComponent("N", 1, "gtx")
 	name := c01Parents[vm.Choice("parent", len(c01Parents))] + "/" + comp
 	var err error
-	op := vm.Choice("op", 9)
+	op := vm.Choice("op", 10)
 	switch op {
 	case 0:
 		err = v.FS.Mkdir(name, 0o750)
@@ -128,6 +137,8 @@ func Harness_C01_rebuild_equals_live() {
 		err = v.FS.Chmod(name, 0o600)
 	case 8:
 		err = v.FS.Chown(name, 7, 8)
+	case 9:
+		err = v.FS.SymlinkIfPossible("/d/g", name)
 	}
 	if vm.Tier() == "thorough" {
 		// a history of two calls: the second one on a fixed set of names that interact with the first
@@ -167,7 +178,7 @@ func Harness_C01_rebuild_equals_live() {
 			continue
 		}
 		for _, b := range r.VerifRows() {
-			if b.Deleted != 1 && c01Norm(b.Name) == c01Norm(a.Name) {
+			if b.Deleted != 1 && c01Norm(b.Name) == c01Norm(a.Name) && c01Norm(b.Linkname) == c01Norm(a.Linkname) {
 				vm.Assert("C01.same_content_position_after_rebuild", a.Record == b.Record && a.Block == b.Block)
 			}
 		}
@@ -276,7 +287,7 @@ func Harness_C01_archive_level_calls() {
 			continue
 		}
 		for _, b := range r.VerifRows() {
-			if b.Deleted != 1 && c01Norm(b.Name) == c01Norm(a.Name) {
+			if b.Deleted != 1 && c01Norm(b.Name) == c01Norm(a.Name) && c01Norm(b.Linkname) == c01Norm(a.Linkname) {
 				vm.Assert("C01.archive_level_same_position_after_rebuild", a.Record == b.Record && a.Block == b.Block)
 			}
 		}
